@@ -51,6 +51,13 @@ class Arr:
         return idx
     def load(self, idx, guard):
         idx = self._norm(idx)
+        if isinstance(idx[-1], Arr) and len(idx) == 1 and self.a.ndim == 1:      # fancy index by (possibly symbolic) index array
+            out = numpy.empty(idx[0].a.shape[0], dtype=object)
+            for t in range(out.shape[0]): out[t] = self.load((idx[0].a[t],), guard)
+            return Arr(out, self.name + "[fancy]", self.errs)
+        if any(isinstance(i, slice) for i in idx):
+            assert all(isinstance(i, slice) or not is_sym(i) for i in idx)
+            return Arr(self.a[tuple(i if isinstance(i, slice) else int(i) for i in idx)], self.name, self.errs)   # numpy view
         if len(idx) < self.a.ndim and all(not is_sym(i) for i in idx):
             return Arr(self.a[tuple(int(i) for i in idx)], self.name, self.errs)  # view
         if all(not is_sym(i) for i in idx):
@@ -89,7 +96,12 @@ class Arr:
                 if not (0 <= int(i) < self.a.shape[d]):
                     self.errs.append((guard, f"OOB store {self.name}[{int(i)}]")); return
                 axes.append([int(i)])
-        for cell in itertools.product(*axes):
+        cells = list(itertools.product(*axes))
+        if isinstance(val, Arr):
+            assert len(cells) == val.a.size and not any(is_sym(i) for i in idx)
+            for cell, v in zip(cells, val.a.flat): self.a[cell] = ITE(guard, v, self.a[cell])
+            return
+        for cell in cells:
             c = AND(guard, *[simp(i == v) for i, v in zip(idx, cell) if is_sym(i)])
             self.a[cell] = ITE(c, val, self.a[cell])
 
@@ -129,6 +141,17 @@ class Interp:
             if z3.is_int(x): return x
             return z3.simplify(z3.If(x >= 0, z3.ToInt(x), -z3.ToInt(-x)))
         return int(x)
+    def arange(self, n):
+        return Arr(numpy.array(list(range(int(n))), dtype=object), "arange", self.errs)
+    @property
+    def random(self): return self
+    def seed(self, s): self.rng_calls = 0
+    def permutation(self, n):
+        n = max(int(n), 0); self.rng_calls = getattr(self, 'rng_calls', 0) + 1
+        vs = [z3.Int(f"perm{self.rng_calls}_{t}") for t in range(n)]
+        for v in vs: self.solver.add(v >= 0, v < n)
+        if n > 1: self.solver.add(z3.Distinct(*vs))
+        return Arr(numpy.array(vs, dtype=object), "perm", self.errs)
     def smin(self, a, b):
         if is_sym(a) or is_sym(b): return ITE(simp(zv(a) < zv(b)), a, b)
         return min(a, b)
@@ -264,6 +287,9 @@ class Interp:
         return z3.simplify(r)
     def ev(self, e, env, g):
         if isinstance(e, ast.Constant): return e.value
+        if isinstance(e, ast.Slice):
+            f = lambda x: None if x is None else int(self.ev(x, env, g))
+            return slice(f(e.lower), f(e.upper), f(e.step))
         if isinstance(e, ast.Name):
             if e.id in env: return env[e.id]
             return self.globals[e.id]
